@@ -30,6 +30,13 @@ func runC06(c *Ctx, r *Report) {
 		r.undecided("C06-R1-emitted-accepted", fmt.Sprintf("matrix-%d", i), "", e)
 	}
 	encodeListOrder(c, r, "C06-R5-list-order")
+	// the component rule as far as the shape of the expansion decides it (the slice of each source,
+	// under exactly its own invalid test): C18's R2 family, without the accumulator and byte-array
+	// rules (which carry C18's known findings)
+	r.only = map[string]bool{"C18-R2-bit-slice": true, "C18-R2-invalid-guard": true, "C18-R2-contiguous": true, "C18-R2-source-order": true, "C18-R2-subfield-agreement": true}
+	c18Rest(c, r, c.fit.TypesInfo)
+	r.only = nil
+	decoderArms(c, r) // the decoder stores each base type through its own setter family: Encode's bytes come back as the values written
 	encoderByteOrder(c, r, "C06-R2-byte-order")
 	ev := newEvaluator(c)
 	hosted := c.hostedMessages()
